@@ -1022,12 +1022,12 @@ def run(ctx):
         for firsts in hist.split(nf, ctx.pick(1, 2)):
             jobs.append({"spec": name, "mode": "exh", "alphabet": "full", "maxlen": full_len, "firsts": firsts})
         for chunk in range(ctx.pick(3, 8)):
-            jobs.append({"spec": name, "mode": "rnd", "chunk": chunk, "nseq": ctx.pick(600, 2500), "maxlen": 40})
+            jobs.append({"spec": name, "mode": "rnd", "chunk": chunk, "nseq": ctx.pick(600, 10000), "maxlen": 40})
         ctx.extra.setdefault("alphabet_sizes", {})[name] = {"core": nc, "full": nf}
     ctx.exhaustive = False
     ctx.extra["exhaustive_part"] = "all sequences of length <= %d over the core alphabets and <= %d over the full " \
                                    "alphabets (sequences are not extended past a divergence)" % (core_len, full_len)
-    ctx.shard(jobs, timeout=ctx.pick(120, 500))
+    ctx.shard(jobs, timeout=ctx.pick(120, 1500))
     ctx.floor("exhaustive_sequences", ctx.pick(6000, 120000))
     ctx.floor("random_sequences", ctx.pick(3600, 40000))
     ctx.floor("steps_rejected", ctx.pick(8000, 80000))
